@@ -31,7 +31,7 @@ Proof. intros K V eqv f max H g Hg h k. exact (memo_transparent_immutable eqv f 
 
 (* Main theorem.  c12_guard h o (computable): in no step of h ++ [o], nor in the cold run of o, did a cache
    hit return an entry stored under an equal-but-not-identical key (an ==-equal annotation with another
-   member order; an equal instant with another offset), and no object owned by the strload cache was
+   member order; an ==-equal duration object of another class), and no object owned by the strload cache was
    mutated by the caller.  Then the outcome of o after h is its cold outcome. *)
 Theorem C12_history_independent :
   forall (W : world) (h : list op) (o : op),
@@ -72,11 +72,12 @@ Theorem C12_refuted_strload_alias :
     warm W h o' <> cold W (run_hist W init h) o'.
 Proof. exists W0, h_alias, o_alias, o_alias_copy. vm_compute. repeat split; intro H; discriminate H. Qed.
 
-(* finding 10: isoformat is keyed by ==: 17:00+05:00 after the equal instant 12:00+00:00 is answered
-   with the first text *)
-Theorem C12_refuted_isoformat_offset :
-  exists W h o, c12_guard W h o = false /\ warm W h o <> cold W (run_hist W init h) o.
-Proof. exists W0, h_iso, o_iso. vm_compute. repeat split; intro H; discriminate H. Qed.
+(* design observation 10 is repaired (34d5e39: only the duration writer is memoised): the equal instant
+   17:00+05:00 after 12:00+00:00 is inside the guard and gets its own text *)
+Example C12_isoformat_equal_instants_ok :
+  c12_guard W0 h_iso o_iso = true /\ warm W0 h_iso o_iso = OVal (Ok (VA 9%N)) /\
+  cold W0 (run_hist W0 init h_iso) o_iso = OVal (Ok (VA 9%N)).
+Proof. vm_compute. repeat split. Qed.
 
 (* finding 11: Union[str, int] after Union[int, str] is served by the routine of the first spelling,
    at the root (factory caches) and in nested positions (inspection.unwrap cache) *)
@@ -96,7 +97,7 @@ Proof. exists (SpOptional SInt), (SpPipeNone SInt), [Some (SpOptional SInt)]. vm
 
 Theorem C12_full_refuted : ~ C12_full.
 Proof.
-  intro F. destruct C12_refuted_isoformat_offset as [W [h [o [_ D]]]]. exact (D (F W h o)).
+  intro F. destruct C12_refuted_union_order as [W [h [o [_ [_ [_ [D _]]]]]]]. exact (D (F W h o)).
 Qed.
 
 Print Assumptions C12_memo_transparent.
@@ -104,7 +105,6 @@ Print Assumptions C12_memo_transparent_immutable.
 Print Assumptions C12_history_independent.
 Print Assumptions C12_inputs_untouched.
 Print Assumptions C12_refuted_strload_alias.
-Print Assumptions C12_refuted_isoformat_offset.
 Print Assumptions C12_refuted_union_order.
 Print Assumptions C12_refuted_predicate_spelling.
 Print Assumptions C12_full_refuted.
